@@ -957,8 +957,8 @@ func c09state(c *an.Ctx) {
 			v, _ := an.ConstInt(ssa.NewConst(k.Val(), k.Type()))
 			allowed = append(allowed, v)
 		}
-		isAllowedEdge := func(e an.Edge) bool {
-			for _, cmp := range an.CmpsOnEdge(e) {
+		isAllowedEdge := func(e an.Edge, st *an.PathState) bool {
+			for _, cmp := range st.CmpsOnEdge(e) {
 				if cmp.Op != token.EQL || !atomicLoadOf(cmp.X, stateF) {
 					continue
 				}
@@ -1011,7 +1011,7 @@ func c09state(c *an.Ctx) {
 				}
 				return false
 			},
-			CutEdge: func(e an.Edge, _ *an.PathState) bool { return isAllowedEdge(e) }}
+			CutEdge: func(e an.Edge, st *an.PathState) bool { return isAllowedEdge(e, st) }}
 		w, f := q.Find()
 		if f {
 			c.Bad(fn, "state guard "+strings.Join(row.allowed, "|"), fn.Pos(),
@@ -1027,8 +1027,7 @@ func c09state(c *an.Ctx) {
 				if !ok {
 					return
 				}
-				b, ok := ifi.Cond.(*ssa.BinOp)
-				if !ok || !atomicLoadOf(b.X, stateF) {
+				if !condDependsOn(ifi.Cond, func(v ssa.Value) bool { return atomicLoadOf(v, stateF) }, 0) {
 					return
 				}
 				for _, s := range ifi.Block().Succs {
@@ -1284,4 +1283,29 @@ func c09mpub(c *an.Ctx) {
 		}
 		c.Check(good, fn, "reads exactly the announced number of messages", fn.Pos(), "", "readMPUB's loop is not bounded by the announced message count")
 	}
+}
+
+// condDependsOn: the branch condition is computed (through !, comparisons and boolean phis) from a value satisfying pred.
+func condDependsOn(v ssa.Value, pred func(ssa.Value) bool, depth int) bool {
+	if v == nil || depth > 5 {
+		return false
+	}
+	if pred(v) {
+		return true
+	}
+	switch x := v.(type) {
+	case *ssa.UnOp:
+		return x.Op == token.NOT && condDependsOn(x.X, pred, depth+1)
+	case *ssa.BinOp:
+		return condDependsOn(x.X, pred, depth+1) || condDependsOn(x.Y, pred, depth+1)
+	case *ssa.Phi:
+		for _, e := range x.Edges {
+			if condDependsOn(e, pred, depth+1) {
+				return true
+			}
+		}
+	case *ssa.Convert:
+		return condDependsOn(x.X, pred, depth+1)
+	}
+	return false
 }
